@@ -30,6 +30,9 @@ def generic_main(mod, tier, seed):
     rep.coverage['domain'] = getattr(mod, 'domain', lambda t: {})(tier)
     if hasattr(mod, 'finalize'):
         mod.finalize(rep, tier, seed)
+    from . import pairs
+    if mod.ID in pairs.CATALOGUE:
+        pairs.extend(rep, mod.ID, tier, seed)
     return rep
 
 
@@ -51,7 +54,7 @@ def main(argv):
                 fn = 'run_case' if hasattr(mod, 'run_case') else 'replay'
                 hist = list(case.get('_session') or []) if isinstance(case, dict) else []
                 bare = {k: v for k, v in case.items() if k != '_session'} if isinstance(case, dict) else case
-                res = common.run_isolated(mod.__name__, fn, hist + [bare])     # a fresh process each time
+                res = common.run_isolated(mod.__name__, fn, hist + [bare])     # a fresh process each time (pair cases: vp.pairs)
                 obs.append(sorted((s, m) for s, m in res.get('viol', ())))
             if obs[0] != obs[1]:
                 print('HARNESS-ERROR nondeterministic replay of %s' % replay)
